@@ -70,6 +70,7 @@ EDGE = [
     'grammar g; s = ' + "{{[" * 3 + '"x" | s |' + "]}}" * 3 + ";",
     'grammar g; AA = "a\\"b"; RX = /a\\/b+/; ID = $ID; @left AA "x" <s = s AA s> <t = >; @right ID; @none "y";\ns = s AA s | ID | ; t = ;',
     'grammar g; @left <s = ("x" | "y") s> <s = {s} [s] {{s}}>; s = "x";', 'grammar g; AA = $NOPE; s = AA;', 'grammar g; s = "a\\\\" "\\"" ;',
+    'grammar g; s = ("x" |) | "y";', 'grammar g; s = ["p" | | "q"];', 'grammar g; s = "a" | ("b" |) | "c" "d";', 'grammar g; s = | "x";' if False else 'grammar g; s = "x" | | | "y" |;',
     "grammar g; s = t u; t = ; u = t | ;", 'grammar g\nAA = "x"\ns = AA t\nt = {AA | "q"} [t]\n',
 ]
 
